@@ -9,6 +9,24 @@ from sa import algebra as A
 SPEC = os.path.join(os.path.dirname(os.path.dirname(os.path.abspath(__file__))), "spec", "geometry_algebra.json")
 
 
+def _definite(v):
+    """no unknown (None) anywhere inside the value"""
+    if v is None:
+        return False
+    if A.is_form(v):
+        return True
+    k = v[0]
+    if k in ("tup", "fmt", "early"):
+        return all(isinstance(x, str) or _definite(x) for x in v[1])
+    if k in ("struct", "match"):
+        return all(_definite(x) for kk, x in v[1].items() if not str(kk).startswith("__"))
+    if k in ("some",):
+        return _definite(v[1])
+    if k == "if":
+        return _definite(v[1]) and _definite(v[2])
+    return True
+
+
 def _components(prefix, got, want):
     """pairwise components of two values for per-component reporting"""
     if want is not None and not A.is_form(want) and want[0] in ("struct", "match") and got is not None and not A.is_form(got) and got[0] == want[0]:
@@ -48,6 +66,9 @@ def check(prog, chk, pid, floor=None):
                 key = f"{short}:{part}{':' + comp if comp else ''}"
                 if w is None:
                     chk.bad("A17.algebra", key, b.where(), f"{short}: the code has a case `{comp}` ({A.canon(g)}) the reference algebra does not define")
+                    continue
+                if not A.equal(g, w) and (not _definite(g) or ev.incomplete):
+                    chk.undecided("A17.algebra", key, b.where(), f"{short} {comp or part}: the affine evaluator could not follow the code to a definite value ({A.canon(g)[:120]}); no verdict against the reference {A.canon(w)[:120]}")
                     continue
                 chk.ob(
                     A.equal(g, w),
@@ -242,6 +263,7 @@ def _case_value(prog, ent, case_name, case):
                 fields[k] = A.ref(v)
         self_value = ("struct", fields)
     summ = ev.summary(ent["function"], self_value=self_value, args=argv)
+    _case_value.incomplete = list(ev.incomplete)
     if "ret" in ent:
         r = summ["ret"] if summ else None
         if ent["ret"] == "all":
@@ -295,8 +317,12 @@ def check_sites(prog, chk, pid):
         chk.touch(b)
         got = {}
         want = {}
+        partial = {}
         for cname, case in ent["cases"].items():
+            _case_value.incomplete = []
             got[cname] = _case_value(prog, ent, cname, case)
+            if _case_value.incomplete or not _definite(got[cname]):
+                partial[cname] = _case_value.incomplete[:1] or ["part of the value is unknown to the evaluator"]
             want[cname] = case["want"] if isinstance(case, dict) else case
         ren, why = match_modulo(got, want, ent.get("roles", []), fixed_prefixes=tuple(ent.get("fixed", ["box.", "$"])))
         n += len(ent["cases"])
@@ -304,6 +330,11 @@ def check_sites(prog, chk, pid):
         if ren is not None:
             for cname in ent["cases"]:
                 chk.ok("A17.site-algebra", f"{name}:{cname}", b.where(), f"{short} [{cname}]: {ent.get('watch', 'result')} <- {A.canon(got[cname])} equals the reference" + (f" with {ren}" if ren else ""))
+        elif partial:
+            # the evaluator could not follow the code to a definite value in some case (an idiom it does not know): a
+            # disagreement that rests on an unknown is not evidence of a wrong value
+            c0 = sorted(partial)[0]
+            chk.undecided("A17.site-algebra", name, b.where(), f"{short}: the affine evaluator could not follow the code in {len(partial)} of {len(ent['cases'])} cases (e.g. {c0}: {partial[c0][0]}; value so far {A.canon(got[c0])[:160]}); no verdict against the reference algebra")
         else:
             chk.bad("A17.site-algebra", f"{name}", b.where(), f"{short}: the values {'passed to ' + ent['watch'] + '()' if ent.get('watch') else 'returned'} disagree with the reference algebra ({ent.get('why', '')}): {why}")
     return n
